@@ -29,6 +29,8 @@ from linear_operator.settings import (
 )
 from torch import Tensor
 
+from . import _verif
+
 
 class _dtype_value_context:
     _global_float_value = None
@@ -64,21 +66,31 @@ class _dtype_value_context:
         self._instance_double_value = double_value if double_value is not None else self._orig_double_value
         self._orig_half_value = self.__class__.value(torch.half)
         self._instance_half_value = half_value if half_value is not None else self._orig_half_value
+        if _verif.ON:
+            _verif.s_construct(self)
 
     def __enter__(
         self,
     ):
+        if _verif.ON:
+            _verif_token = _verif.s_begin(self)
         self.__class__._set_value(
             self._instance_float_value,
             self._instance_double_value,
             self._instance_half_value,
         )
+        if _verif.ON:
+            _verif.s_end(self, _verif_token, "s_enter")
 
     def __exit__(self, *args):
+        if _verif.ON:
+            _verif_token = _verif.s_begin(self)
         # Restore unconditionally: _set_value skips None, which would leak a value set over a None default
         self.__class__._global_float_value = self._orig_float_value
         self.__class__._global_double_value = self._orig_double_value
         self.__class__._global_half_value = self._orig_half_value
+        if _verif.ON:
+            _verif.s_end(self, _verif_token, "s_exit")
         return False
 
 
@@ -111,12 +123,22 @@ class _feature_flag:
     def __init__(self, state=True):
         self.prev = self.__class__._state
         self.state = state
+        if _verif.ON:
+            _verif.s_construct(self)
 
     def __enter__(self):
+        if _verif.ON:
+            _verif_token = _verif.s_begin(self)
         self.__class__._set_state(self.state)
+        if _verif.ON:
+            _verif.s_end(self, _verif_token, "s_enter")
 
     def __exit__(self, *args):
+        if _verif.ON:
+            _verif_token = _verif.s_begin(self)
         self.__class__._set_state(self.prev)
+        if _verif.ON:
+            _verif.s_end(self, _verif_token, "s_exit")
         return False
 
 
@@ -134,14 +156,24 @@ class _value_context:
     def __init__(self, value):
         self._orig_value = self.__class__.value()
         self._instance_value = value
+        if _verif.ON:
+            _verif.s_construct(self)
 
     def __enter__(
         self,
     ):
+        if _verif.ON:
+            _verif_token = _verif.s_begin(self)
         self.__class__._set_value(self._instance_value)
+        if _verif.ON:
+            _verif.s_end(self, _verif_token, "s_enter")
 
     def __exit__(self, *args):
+        if _verif.ON:
+            _verif_token = _verif.s_begin(self)
         self.__class__._set_value(self._orig_value)
+        if _verif.ON:
+            _verif.s_end(self, _verif_token, "s_exit")
         return False
 
 
@@ -215,10 +247,14 @@ class fast_pred_var(_feature_flag):
         super().__init__(state)
 
     def __enter__(self):
+        if _verif.ON:
+            _verif.s_begin(self)
         self.__class__._set_num_probe_vectors(self.value)
         super().__enter__()
 
     def __exit__(self, *args):
+        if _verif.ON:
+            _verif.s_begin(self)
         self.__class__._set_num_probe_vectors(self.orig_value)
         return super().__exit__()
 
